@@ -626,8 +626,12 @@ PROPS["C32"] = dict(
 
 U04 = {r"d_find_close|d_find_open|d_enclose|d_select0|c04_": 134, r"select_in_word_ctz|spec.*select_in_word": 66,
        r"spec.*rank1|spec.*select1|masked": 5, r"find_unmatched_close_in_word": 66,
-       r"2bp10find_close(Cs|[.])|2bp9find_open(Cs|[.])|2bp7enclose(Cs|[.])": 12, r"build_bp_index|build_l[012]_index": 3,
-       r"find_close_from": 4, r"find_close_in_word_fast|word_min_excess|word_max_excess_rev": 10, r"BalancedParens.*7select0": 9}
+       r"2bp10find_close(Cs\w+)?[.]0$|2bp7enclose(Cs\w+)?[.][01]$|2bp9find_open(Cs\w+)?[.][01]$": 66,
+       r"2bp10find_close(Cs\w+)?[.]1$|2bp7enclose(Cs\w+)?[.]2$|2bp9find_open(Cs\w+)?[.]2$": 3, r"build_bp_index|build_l[012]_index": 3,
+       r"find_close_from": 12, r"find_close_in_word_fast|word_min_excess|word_max_excess_rev": 10, r"BalancedParens.*7select0": 9}
+
+U04W1 = dict(U04)
+U04W1.update({r"d_find_close|d_find_open|d_enclose|d_select0|c04_": 68, r"build_bp_index|build_l[012]_index": 2})
 
 PROPS["C04"] = dict(
     module="c04",
@@ -638,35 +642,47 @@ PROPS["C04"] = dict(
              "these harnesses (a 2-word vector stays inside one L0/L1/L2 block)"),
     assumptions=["BMI2 probe solver-chosen, AVX2 block popcount modelled in the select harnesses"],
     harnesses=[
-        H("c04_free_len100", timeout=1800, unwindset=U04, bounds="free functions, len 100"),
-        H("c04_free_len128", timeout=1800, unwindset=U04, tier="thorough", bounds="free functions, len 128"),
-        H("c04_free_len65", timeout=1800, unwindset=U04, tier="thorough", bounds="free functions, len 65"),
-        H("c04_free_len64", timeout=1800, unwindset=U04, tier="thorough", bounds="free functions, len 64"),
-        H("c04_free_len63", timeout=1800, unwindset=U04, bounds="free functions, len 63"),
-        H("c04_free_len1", timeout=600, unwindset=U04, bounds="free functions, len 1"),
-        H("c04_bp_close_len100", timeout=2700, unwindset=U04, tier="quick", bounds="BalancedParens close_len100, 2 arbitrary words, all p,k <= 131"),
-        H("c04_bp_derived_len100", timeout=2700, unwindset=U04, tier="quick", bounds="BalancedParens derived_len100, 2 arbitrary words, all p,k <= 131"),
-        H("c04_bp_open_len100", timeout=2700, unwindset=U04, tier="quick", bounds="BalancedParens open_len100, 2 arbitrary words, all p,k <= 131"),
-        H("c04_bp_rank_len100", timeout=2700, unwindset=U04, tier="quick", bounds="BalancedParens rank_len100, 2 arbitrary words, all p,k <= 131"),
+        H("c04_free_close_len100", timeout=2700, unwindset=U04, tier="thorough", bounds="free find_close, 2 arbitrary words, len 100, every p <= 131"),
+        H("c04_free_close_len128", timeout=2700, unwindset=U04, tier="thorough", bounds="free find_close, 2 arbitrary words, len 128, every p <= 131"),
+        H("c04_free_close_len65", timeout=2700, unwindset=U04, tier="thorough", bounds="free find_close, 2 arbitrary words, len 65, every p <= 131"),
+        H("c04_free_open_len100", timeout=2700, unwindset=U04, tier="thorough", bounds="free find_open, 2 arbitrary words, len 100, every p <= 131"),
+        H("c04_free_open_len128", timeout=2700, unwindset=U04, tier="thorough", bounds="free find_open, 2 arbitrary words, len 128, every p <= 131"),
+        H("c04_free_open_len65", timeout=2700, unwindset=U04, tier="thorough", bounds="free find_open, 2 arbitrary words, len 65, every p <= 131"),
+        H("c04_free_enclose_len100", timeout=2700, unwindset=U04, tier="thorough", bounds="free enclose, 2 arbitrary words, len 100, every p <= 131"),
+        H("c04_free_enclose_len128", timeout=2700, unwindset=U04, tier="thorough", bounds="free enclose, 2 arbitrary words, len 128, every p <= 131"),
+        H("c04_free_enclose_len65", timeout=2700, unwindset=U04, tier="thorough", bounds="free enclose, 2 arbitrary words, len 65, every p <= 131"),
+        H("c04_free_close_len63", timeout=2700, unwindset=U04, tier="thorough", bounds="free find_close, len 63"),
+        H("c04_free_open_len64", timeout=2700, unwindset=U04, tier="thorough", bounds="free find_open, len 64"),
+        H("c04_free_enclose_len63", timeout=2700, unwindset=U04, tier="thorough", bounds="free enclose, len 63"),
+        H("c04_w1_close_len40", timeout=1800, unwindset=U04W1, bounds="BalancedParens on 1 arbitrary word, len 40: find_close"),
+        H("c04_w1_open_len40", timeout=2700, unwindset=U04W1, tier="thorough", bounds="1 word, len 40: find_open, enclose/parent"),
+        H("c04_w1_rank_len40", timeout=1800, unwindset=U04W1, bounds="1 word, len 40: rank/excess/depth/first_child/select0"),
+        H("c04_w1_derived_len40", timeout=1800, unwindset=U04W1, tier="thorough", bounds="1 word, len 40: next_sibling, subtree_size"),
+        H("c04_w1_close_len64", timeout=1800, unwindset=U04W1, tier="thorough", bounds="1 word, len 64: find_close"),
+        H("c04_w1_open_len64", timeout=1800, unwindset=U04W1, tier="thorough", bounds="1 word, len 64: find_open, enclose"),
+        H("c04_bp_close_len100", timeout=2700, unwindset=U04, tier="thorough", bounds="BalancedParens close_len100, 2 arbitrary words, all p,k <= 131"),
+        H("c04_bp_derived_len100", timeout=2700, unwindset=U04, tier="thorough", bounds="BalancedParens derived_len100, 2 arbitrary words, all p,k <= 131"),
+        H("c04_bp_open_len100", timeout=2700, unwindset=U04, tier="thorough", bounds="BalancedParens open_len100, 2 arbitrary words, all p,k <= 131"),
+        H("c04_bp_rank_len100", timeout=2700, unwindset=U04, tier="thorough", bounds="BalancedParens rank_len100, 2 arbitrary words, all p,k <= 131"),
         H("c04_bp_close_len128", timeout=2700, unwindset=U04, tier="thorough", bounds="BalancedParens close_len128, 2 arbitrary words, all p,k <= 131"),
         H("c04_bp_open_len128", timeout=2700, unwindset=U04, tier="thorough", bounds="BalancedParens open_len128, 2 arbitrary words, all p,k <= 131"),
         H("c04_bp_rank_len128", timeout=2700, unwindset=U04, tier="thorough", bounds="BalancedParens rank_len128, 2 arbitrary words, all p,k <= 131"),
-        H("c04_bp_close_len65", timeout=2700, unwindset=U04, tier="quick", bounds="BalancedParens close_len65, 2 arbitrary words, all p,k <= 131"),
+        H("c04_bp_close_len65", timeout=2700, unwindset=U04, tier="thorough", bounds="BalancedParens close_len65, 2 arbitrary words, all p,k <= 131"),
         H("c04_bp_open_len65", timeout=2700, unwindset=U04, tier="thorough", bounds="BalancedParens open_len65, 2 arbitrary words, all p,k <= 131"),
         H("c04_bp_rank_len65", timeout=2700, unwindset=U04, tier="thorough", bounds="BalancedParens rank_len65, 2 arbitrary words, all p,k <= 131"),
         H("c04_bp_close_len64", timeout=2700, unwindset=U04, tier="thorough", bounds="BalancedParens close_len64, 2 arbitrary words, all p,k <= 131"),
         H("c04_bp_open_len64", timeout=2700, unwindset=U04, tier="thorough", bounds="BalancedParens open_len64, 2 arbitrary words, all p,k <= 131"),
         H("c04_bp_close_len63", timeout=2700, unwindset=U04, tier="thorough", bounds="BalancedParens close_len63, 2 arbitrary words, all p,k <= 131"),
         H("c04_bp_rank_len63", timeout=2700, unwindset=U04, tier="thorough", bounds="BalancedParens rank_len63, 2 arbitrary words, all p,k <= 131"),
-        H("c04_bp_close_len1", timeout=2700, unwindset=U04, tier="quick", bounds="BalancedParens close_len1, 2 arbitrary words, all p,k <= 131"),
+        H("c04_bp_close_len1", timeout=2700, unwindset=U04, tier="thorough", bounds="BalancedParens close_len1, 2 arbitrary words, all p,k <= 131"),
         H("c04_bp_rank_len1", timeout=2700, unwindset=U04, tier="thorough", bounds="BalancedParens rank_len1, 2 arbitrary words, all p,k <= 131"),
-        H("c04_bp_borrowed_close_len100", timeout=2700, unwindset=U04, tier="quick", bounds="BalancedParens borrowed_close_len100, 2 arbitrary words, all p,k <= 131"),
+        H("c04_bp_borrowed_close_len100", timeout=2700, unwindset=U04, tier="thorough", bounds="BalancedParens borrowed_close_len100, 2 arbitrary words, all p,k <= 131"),
         H("c04_bp_borrowed_open_len100", timeout=2700, unwindset=U04, tier="thorough", bounds="BalancedParens borrowed_open_len100, 2 arbitrary words, all p,k <= 131"),
-        H("c04_bp_borrowed_rank_len100", timeout=2700, unwindset=U04, tier="quick", bounds="BalancedParens borrowed_rank_len100, 2 arbitrary words, all p,k <= 131"),
+        H("c04_bp_borrowed_rank_len100", timeout=2700, unwindset=U04, tier="thorough", bounds="BalancedParens borrowed_rank_len100, 2 arbitrary words, all p,k <= 131"),
         H("c04_bp_borrowed_close_len65", timeout=2700, unwindset=U04, tier="thorough", bounds="BalancedParens borrowed_close_len65, 2 arbitrary words, all p,k <= 131"),
         H("c04_bp_borrowed_rank_len65", timeout=2700, unwindset=U04, tier="thorough", bounds="BalancedParens borrowed_rank_len65, 2 arbitrary words, all p,k <= 131"),
         H("c04_bp_withselect_len100", timeout=2700, unwindset=U04, tier="thorough", bounds="WithSelect, len 100", replay="trace"),
-        H("c04_bp_cspoppy_len100", timeout=2700, unwindset=U04, bounds="WithCsPoppy default rate, len 100", replay="trace"),
+        H("c04_bp_cspoppy_len100", timeout=2700, unwindset=U04, tier="thorough", bounds="WithCsPoppy default rate, len 100", replay="trace"),
         H("c04_bp_cspoppy_rate1_len100", timeout=2700, unwindset=U04, tier="thorough", bounds="WithCsPoppy rate 1", replay="trace"),
         H("c04_bp_cspoppy_rate7_len128", timeout=2700, unwindset=U04, tier="thorough", bounds="WithCsPoppy rate 7, len 128", replay="trace"),
         H("c04_bp_cspoppy_rate4096_len65", timeout=2700, unwindset=U04, tier="thorough", bounds="WithCsPoppy rate 4096, len 65", replay="trace"),
